@@ -16,10 +16,29 @@ def run(rep, tier, seed):
             conf = confs[rng.below(7)]
         b0 = rng.choice([0, 0, 0, 1, 2, 3, 4, 0x80, 0xFC, 0xFF, rng.below(256)])
         off = 65 if conf[0].startswith("fat32") else 37
-        s = sessions.gen_session(rng, conf, rng.range(3, 30), prelude=None)
-        # insert the poke before mount (index 5 is the mount line)
-        s = s[:5] + ["poke %d %02x" % (off, b0)] + s[5:]
+        label, size, fmt = conf
+        g = sessions.Gen(rng, True, True)
+        toks = fmt.split()
+        bps_ = 512 if toks[1] == "-" else int(toks[1])
+        g.cluster = bps_ if toks[3] == "-" else int(toks[3])
+        nops = rng.range(3, 30)
+        while len(g.lines) < nops:
+            g.step()
+        s = ["dev %d 0" % size, "wlog 0", fmt, "pages", "wlog 1", "poke %d %02x" % (off, b0), "mount 1 0 lossy"] + g.lines
         end = rng.choice(["unmount", "dropfs", "forget", "forget"])
+        if end != "forget" and g.files and rng.chance(2, 3):
+            # a second session on the cleanly closed volume whose FIRST change is one particular kind of structural change
+            fpath = sessions.hexs("/".join(rng.choice(sorted(g.files))))
+            first = rng.choice([
+                ["open_file 0 %s 800" % fpath, "seek 800 start %d" % rng.choice([1, 2, 100, g.cluster - 1, g.cluster]), "truncate 800", "drop_file 800"],
+                ["open_file 0 %s 800" % fpath, "write 800 %s" % sessions.hexs(b"in-place"), "drop_file 800"],
+                ["open_file 0 %s 800" % fpath, "seek 800 end 0", "write_pat 800 %d 4" % rng.range(1, 2 * g.cluster), "flush 800"],
+                ["remove 0 %s" % fpath],
+                ["rename 0 %s 0 %s" % (fpath, sessions.hexs("renamed in second session.x"))],
+                ["create_dir 0 %s 0" % sessions.hexs("dir made in second session")],
+            ])
+            s += ["drop_all", end, "mount 1 0 lossy"] + first
+            end = rng.choice(["unmount", "forget", "forget"])
         s += ["drop_all", end] if end != "forget" else ["forget"]
         s += ["mount 1 0 lossy", "status_flags", "unmount"]
         scripts.append(s); metas.append((b0, end))
